@@ -187,12 +187,14 @@ CLAIMED = {
         "with the model in Coq",
         "Theorems for nesting trees of any depth mixing plain and SPA containers with explicit overrides and seeds: all modules "
         "of a model that are not below an explicit override resolve to the same vocabulary map, hence modules with equal "
-        "dimensionality share one Vocabulary object; the maps a model uses are created by that model, so models built one "
+        "dimensionality share one Vocabulary object; every module below an explicitly supplied map uses that map, which is "
+        "fresh, and nothing below a supplied or inherited map creates a map (Theory/NetworkCtxExplicit.v); the maps a model uses are created by that model, so models built one "
         "after another never share vocabularies; dimensionality arguments below 1 or of the wrong kind are rejected. "
         "Reproducibility from the seed is determinism of the traversal plus the seed recorded per map; 'a different seed gives "
         "different pointers' is tested, not proved. Tie: all tree shapes to 4 (thorough 5) nodes over a reduced label set + "
         "random trees to depth 4 / 12 nodes, two models per process, partition by `is` on .vocab; pointer equality across "
-        "two same-seed builds and inequality for a different seed; rejection table.",
+        "two same-seed builds and inequality for a different seed; rejection table; both construction orders (nested "
+        "with-blocks; containers created first and entered again later).",
         "Trusted: Coq kernel; Model/NetworkCtx.v (Nengo's two context stacks modelled as traversal parameters); reading of "
         "'the seed' as the seed of the network that creates the map (DESIGN.md); harness.",
         "DESIGN.md section 5, C18",
